@@ -93,7 +93,7 @@ def main(tier, all_violations=False, t0=None):
     desc = describe(tier)
     p = PLAN[tier]
     # (a) index part on the hist graph
-    res = hist.search(tier)
+    res = hist.search(tier, prop="C17")
     if "error" in res:
         print("INFRASTRUCTURE: %s" % res["error"])
         return 2
